@@ -14,6 +14,8 @@ Open Scope nat_scope.
 
 Section P.
 Variable p : prog.
+Variable par : nat -> option nat.
+Variable selw : nat -> bool.
 Hypothesis wfp : wf_prog p.
 Hypothesis nsf : no_self_feed p.
 Notation memob := (memob p).
@@ -291,8 +293,57 @@ Proof.
   - destruct (IH k ltac:(lia)) as (l1 & l2 & E1 & E2). exists (a :: l1), l2. cbn. split; congruence.
 Qed.
 
+(* the run queue is a set as far as the invariant goes: reordering it changes nothing *)
+Lemma in_insert_sorted x y l : In x (insert_sorted y l) <-> x = y \/ In x l.
+Proof.
+  induction l as [|h t IH]; cbn [insert_sorted].
+  - cbn. intuition.
+  - destruct (Nat.leb y h); cbn [In]; [intuition|]. rewrite IH. intuition.
+Qed.
+Lemma in_isort x l : In x (isort l) <-> In x l.
+Proof.
+  induction l as [|h t IH]; cbn [isort fold_right]; [tauto|].
+  fold (isort t). rewrite in_insert_sorted, IH. cbn. intuition.
+Qed.
+Lemma in_canon_queue x n l : In x (firstn n l ++ isort (skipn n l)) <-> In x l.
+Proof.
+  rewrite in_app_iff, in_isort. rewrite <- (firstn_skipn n l) at 3. rewrite in_app_iff. tauto.
+Qed.
+
+Lemma Inv0_requeue s l :
+  Inv0 s -> (forall x, In x l <-> In x (ready s)) -> Inv0 (set_ready s l).
+Proof.
+  intros I Hl. apply (Inv0_same_nodes s); auto. intros e.
+  pose proof (inv_queue _ _ _ _ I e) as Q. unfold GraphInvariant.queue_ok, queue_ok_n in *.
+  change (getn (set_ready s l) e) with (getn s e). cbn [ready set_ready].
+  destruct (decl_of p e); auto. intros Ha. destruct (Q Ha) as (Q1 & Q2). split; auto.
+  intros Hp. destruct (Q2 Hp) as (A & B & C). split; auto. split; auto.
+  intros Hr. apply Hl. auto.
+Qed.
+
+Lemma canon_wakes_spec i n0 s :
+  Inv0 s -> Inv0 (canon_wakes selw i n0 s) /\ EpollSame s (canon_wakes selw i n0 s).
+Proof.
+  intros I. unfold canon_wakes. destruct (selw i); [|split; [exact I|apply EpollSame_refl]].
+  split; [apply Inv0_requeue; auto; intros x; apply in_canon_queue|].
+  right. split; [reflexivity|intros; reflexivity].
+Qed.
+
+Lemma sched_popped e s l1 l2 ev :
+  Inv0 s -> ready s = l1 ++ e :: l2 ->
+  let s' := poll_sched p selw (eff_check p) e (emit ev (set_ready s (l1 ++ l2))) in
+  Inv0 s' /\ EpollSame s s'.
+Proof.
+  intros I Hr. cbv zeta. unfold poll_sched.
+  destruct (poll_popped e s l1 l2 ev I Hr) as (I1 & E1).
+  set (s1 := poll_task p (eff_check p) e (emit ev (set_ready s (l1 ++ l2)))) in *.
+  destruct (canon_wakes_spec e (length (ready (emit ev (set_ready s (l1 ++ l2))))) s1 I1) as (I2 & E2).
+  split; auto. eapply EpollSame_trans; [exact E1| |exact E2].
+  unfold canon_wakes. destruct (selw e); auto.
+Qed.
+
 Lemma drain_spec : forall f s, Inv0 s ->
-  Inv0 (drain p (eff_check p) f s) /\ EpollSame s (drain p (eff_check p) f s).
+  Inv0 (drain p selw (eff_check p) f s) /\ EpollSame s (drain p selw (eff_check p) f s).
 Proof.
   induction f as [|f IH]; intros s I; cbn [drain]; destruct (halted s) eqn:Hh;
     try (split; [exact I|apply EpollSame_refl]); destruct (ready s) as [|e r] eqn:Er.
@@ -301,8 +352,8 @@ Proof.
     + eapply WF_getn_eq; [| |apply I]; auto.
     + intros i. apply nview_eq_refl.
   - split; [apply Inv_emit; auto|right; split; [reflexivity|intros; reflexivity]].
-  - destruct (poll_popped e s [] r (EvPoll (Some e)) I Er) as (I1 & E1).
-    set (s1 := poll_task p (eff_check p) e (emit (EvPoll (Some e)) (set_ready s ([] ++ r)))) in *.
+  - destruct (sched_popped e s [] r (EvPoll (Some e)) I Er) as (I1 & E1).
+    set (s1 := poll_sched p selw (eff_check p) e (emit (EvPoll (Some e)) (set_ready s ([] ++ r)))) in *.
     change (set_ready s r) with (set_ready s ([] ++ r)). fold s1.
     destruct (IH s1 I1) as (I2 & E2). split; auto.
     destruct (halted s1) eqn:Hh1.
@@ -374,6 +425,35 @@ Proof.
     + intros i. apply dead_view. apply (updn_field edone); auto.
   - intros i. destruct (getn_updn_cases e (fun n => set_epaused n b) s i) as [[_ E]|E]; rewrite E;
       [unfold nview_eq; nsimpl; intuition|apply nview_eq_refl].
+Qed.
+
+Lemma pause_list_spec b l : forall s, Inv0 s ->
+  Inv0 (fold_left (fun s e => updn e (fun n => set_epaused n b) s) l s).
+Proof. induction l as [|e t IH]; intros s I; cbn [fold_left]; auto. apply IH. apply pause_spec; auto. Qed.
+
+Lemma dispose_list_spec l : forall s, Inv0 s -> (forall e, In e l -> effb e = true) ->
+  Inv0 (fold_left (fun s e => dispose e s) l s).
+Proof.
+  induction l as [|e t IH]; intros s I He; cbn [fold_left]; auto.
+  apply IH; [apply dispose_spec; auto; apply He; left; auto|intros x Hx; apply He; right; auto].
+Qed.
+
+Lemma children_eff o c : In c (children p par o) -> effb c = true.
+Proof. unfold children. intros H. apply filter_In in H as [_ H]. apply andb_prop in H as [H _]. exact H. Qed.
+
+Lemma postorder_eff f : forall o e, effb o = true -> In e (postorder p par f o) -> effb e = true.
+Proof.
+  induction f as [|f IH]; intros o e Ho; cbn [postorder].
+  - intros [<-|[]]; auto.
+  - intros H. apply in_app_iff in H as [H|[<-|[]]]; auto.
+    apply in_flat_map in H as (c & Hc & He). apply (IH c e); auto. apply (children_eff o c Hc).
+Qed.
+
+Lemma dispose_tree_spec o s : Inv0 s -> effb o = true -> Inv0 (dispose_tree p par o s).
+Proof.
+  intros I Ho. unfold dispose_tree. apply dispose_list_spec; auto.
+  intros e He. apply in_app_iff in He as [He|He]; apply filter_In in He as [He _];
+    apply (postorder_eff (length p) o e Ho He).
 Qed.
 
 (* ---------------------------------------------------------------- a source is disposed *)
@@ -462,7 +542,7 @@ Lemma is_eff_effb j : is_eff p j = GraphInvariant.effb p j.
 Proof. reflexivity. Qed.
 
 Lemma step_spec s o :
-  Inv0 s -> wf_op o -> Inv0 (step p (eff_check p) (notify_sig p) s o).
+  Inv0 s -> wf_op o -> Inv0 (step p par selw (eff_check p) (notify_sig p) s o).
 Proof.
   intros I Hw. unfold step. destruct (halted s); auto.
   assert (I1 : Inv0 (emit EvOp s)) by (apply Inv_emit; auto).
@@ -486,11 +566,11 @@ Proof.
     assert (Hlen : Nat.modulo k (length (ready s1)) < length (ready s1)).
     { apply Nat.mod_upper_bound. rewrite Er. discriminate. }
     destruct (remove_nth_split (ready s1) _ Hlen) as (l1 & l2 & E1 & E2).
-    rewrite E2. apply (poll_popped _ s1 l1 l2); auto.
+    rewrite E2. apply (sched_popped _ s1 l1 l2); auto.
   - apply drain_spec; auto.
-  - destruct (is_eff p e); auto. apply pause_spec; auto.
-  - destruct (is_eff p e); auto. apply pause_spec; auto.
-  - rewrite is_eff_effb. destruct (GraphInvariant.effb p e) eqn:He; auto. apply dispose_spec; auto.
+  - destruct (is_eff p e); auto. apply pause_list_spec; auto.
+  - destruct (is_eff p e); auto. apply pause_list_spec; auto.
+  - rewrite is_eff_effb. destruct (GraphInvariant.effb p e) eqn:He; auto. apply dispose_tree_spec; auto.
   - rewrite is_eff_effb. destruct (GraphInvariant.effb p n) eqn:He; auto. apply drop_spec; auto.
 Qed.
 
@@ -654,11 +734,11 @@ Qed.
 (* ---------------------------------------------------------------- every reachable state *)
 Definition wf_ops (ops : list op) : Prop := Forall wf_op ops.
 
-Theorem reachable_inv : forall ops, wf_ops ops -> Inv0 (run_fixed p ops).
+Theorem reachable_inv : forall ops, wf_ops ops -> Inv0 (run_fixed p par selw ops).
 Proof.
   intros ops Hw. unfold run_fixed, run_ops.
   assert (H : forall l s, Forall wf_op l -> Inv0 s ->
-              Inv0 (fold_left (step p (eff_check p) (notify_sig p)) l s)).
+              Inv0 (fold_left (step p par selw (eff_check p) (notify_sig p)) l s)).
   { induction l as [|o t IH]; intros s Hf I; cbn; auto.
     inversion Hf; subst. apply IH; auto. apply step_spec; auto. }
   apply H; auto. apply init_spec.
@@ -691,8 +771,38 @@ Proof.
     destruct (H2 x) as (_&_&_&_&_&_&_&_&_&_&_&_&_&_&->). unfold s1. apply (updn_field epoll); auto.
 Qed.
 
+Lemma pause_list_static b l : forall s,
+  let s' := fold_left (fun s e => updn e (fun n => set_epaused n b) s) l s in
+  halted s' = halted s /\ forall x, epoll (getn s' x) = epoll (getn s x).
+Proof.
+  induction l as [|e t IH]; intros s; cbn [fold_left]; [split; reflexivity|].
+  destruct (IH (updn e (fun n => set_epaused n b) s)) as (A & B). cbv zeta in A, B.
+  split; [rewrite A; reflexivity|]. intros x. rewrite B. apply (updn_field epoll). reflexivity.
+Qed.
+
+Lemma dispose_static e s :
+  halted (dispose e s) = halted s /\ forall x, epoll (getn (dispose e s) x) = epoll (getn s x).
+Proof.
+  unfold dispose.
+  assert (Hq : forall a, halted (enqueue e a) = halted a).
+  { intros a. unfold enqueue. destruct (existsb _ _); reflexivity. }
+  destruct (ealive (getn s e)); [|auto].
+  destruct (ereg _).
+  + split; [rewrite Hq; reflexivity|]. intros x. rewrite getn_enqueue, !(updn_field epoll) by auto. reflexivity.
+  + split; [reflexivity|]. intros x. rewrite (updn_field epoll) by auto. reflexivity.
+Qed.
+
+Lemma dispose_list_static l : forall s,
+  let s' := fold_left (fun s e => dispose e s) l s in
+  halted s' = halted s /\ forall x, epoll (getn s' x) = epoll (getn s x).
+Proof.
+  induction l as [|e t IH]; intros s; cbn [fold_left]; [split; reflexivity|].
+  destruct (IH (dispose e s)) as (A & B). cbv zeta in A, B. destruct (dispose_static e s) as (C & D).
+  split; [rewrite A; exact C|]. intros x. rewrite B. apply D.
+Qed.
+
 Lemma step_epoll s o :
-  Inv0 s -> wf_op o -> EpollSame s (step p (eff_check p) (notify_sig p) s o).
+  Inv0 s -> wf_op o -> EpollSame s (step p par selw (eff_check p) (notify_sig p) s o).
 Proof.
   intros I Hw. unfold step. destruct (halted s) eqn:Hh; [apply EpollSame_refl|].
   assert (I1 : Inv0 (emit EvOp s)) by (apply Inv_emit; auto).
@@ -717,20 +827,12 @@ Proof.
     assert (Hlen : Nat.modulo k (length (ready s1)) < length (ready s1)).
     { apply Nat.mod_upper_bound. rewrite Er. discriminate. }
     destruct (remove_nth_split (ready s1) _ Hlen) as (l1 & l2 & E1 & E2).
-    rewrite E2. destruct (poll_popped _ s1 l1 l2 (EvPoll (Some (nth (Nat.modulo k (length (ready s1))) (ready s1) 0))) I1 E1) as (_ & E).
+    rewrite E2. destruct (sched_popped _ s1 l1 l2 (EvPoll (Some (nth (Nat.modulo k (length (ready s1))) (ready s1) 0))) I1 E1) as (_ & E).
     destruct E as [E|[Ea Eb]]; [left; auto|right; auto].
   - destruct (drain_spec RUN_LIMIT s1 I1) as (_ & E). destruct E as [E|[Ea Eb]]; [left; auto|right; auto].
-  - destruct (is_eff p e); [|right; auto]. right. split; [reflexivity|].
-    intros x. rewrite (updn_field epoll) by auto. reflexivity.
-  - destruct (is_eff p e); [|right; auto]. right. split; [reflexivity|].
-    intros x. rewrite (updn_field epoll) by auto. reflexivity.
-  - destruct (is_eff p e); [|right; auto]. right. unfold dispose.
-    assert (Hq : forall a, halted (enqueue e a) = halted a).
-    { intros a. unfold enqueue. destruct (existsb _ _); reflexivity. }
-    destruct (ealive (getn s1 e)); [|auto].
-    destruct (ereg _).
-    + split; [rewrite Hq; reflexivity|]. intros x. rewrite getn_enqueue, !(updn_field epoll) by auto. reflexivity.
-    + split; [reflexivity|]. intros x. rewrite (updn_field epoll) by auto. reflexivity.
+  - destruct (is_eff p e); [|right; auto]. right. exact (pause_list_static true _ s1).
+  - destruct (is_eff p e); [|right; auto]. right. exact (pause_list_static false _ s1).
+  - destruct (is_eff p e); [|right; auto]. right. exact (dispose_list_static _ s1).
   - destruct (is_eff p n); [right; auto|]. right. split; [reflexivity|].
     intros x. rewrite (updn_field epoll) by auto. reflexivity.
 Qed.
@@ -803,13 +905,13 @@ Qed.
 
 (* in every reachable state that has not halted, no task is unspawned or in the middle of a poll *)
 Theorem reachable_at_rest : forall ops, wf_ops ops ->
-  halted (run_fixed p ops) = true \/
-  forall e, effb e = true -> epoll (getn (run_fixed p ops) e) = false.
+  halted (run_fixed p par selw ops) = true \/
+  forall e, effb e = true -> epoll (getn (run_fixed p par selw ops) e) = false.
 Proof.
   intros ops Hw. unfold run_fixed, run_ops.
   assert (H : forall l s, Forall wf_op l -> Inv0 s ->
               (halted s = true \/ forall e, effb e = true -> epoll (getn s e) = false) ->
-              let s' := fold_left (step p (eff_check p) (notify_sig p)) l s in
+              let s' := fold_left (step p par selw (eff_check p) (notify_sig p)) l s in
               halted s' = true \/ forall e, effb e = true -> epoll (getn s' e) = false).
   { induction l as [|o t IH]; intros s Hf I Hs; cbn [fold_left]; auto.
     inversion Hf; subst. apply IH; auto; [apply step_spec; auto|].
@@ -823,10 +925,10 @@ Qed.
 (* ---------------------------------------------------------------- consequences *)
 (* C01: a read from outside, in any reachable state *)
 Theorem read_consistent_cone : forall ops n s' v,
-  wf_ops ops -> n < length p -> effb n = false -> dead (run_fixed p ops) n = false ->
-  read_top p n (run_fixed p ops) = (s', v) ->
+  wf_ops ops -> n < length p -> effb n = false -> dead (run_fixed p par selw ops) n = false ->
+  read_top p n (run_fixed p par selw ops) = (s', v) ->
   Inv0 s' /\
-  (forall i, sval (getn s' i) = sval (getn (run_fixed p ops) i)) /\
+  (forall i, sval (getn s' i) = sval (getn (run_fixed p par selw ops) i)) /\
   (memob n = true -> st (getn s' n) = Clean /\ cache (getn s' n) = Some v /\ ConsistentM p s' n) /\
   (sigb n = true -> v = sval (getn s' n)).
 Proof.
@@ -839,8 +941,8 @@ Qed.
 
 (* reading again changes nothing *)
 Theorem read_idempotent : forall ops n s1 v1 s2 v2,
-  wf_ops ops -> n < length p -> memob n = true -> dead (run_fixed p ops) n = false ->
-  read_top p n (run_fixed p ops) = (s1, v1) -> read_top p n s1 = (s2, v2) -> v2 = v1.
+  wf_ops ops -> n < length p -> memob n = true -> dead (run_fixed p par selw ops) n = false ->
+  read_top p n (run_fixed p par selw ops) = (s1, v1) -> read_top p n s1 = (s2, v2) -> v2 = v1.
 Proof.
   intros ops n s1 v1 s2 v2 Hw Hn Hm Hg H1 H2.
   assert (He : effb n = false).
@@ -853,7 +955,7 @@ Proof.
 Qed.
 
 (* C09: no body invocation (other than a first one) without a recorded cause *)
-Theorem no_causeless_run : forall ops, wf_ops ops -> nocause (run_fixed p ops) = 0.
+Theorem no_causeless_run : forall ops, wf_ops ops -> nocause (run_fixed p par selw ops) = 0.
 Proof. intros ops Hw. apply (inv_nocause _ _ _ _ (reachable_inv ops Hw)). Qed.
 
 End P.
